@@ -2818,6 +2818,13 @@ def builtin_summary(I, cal, args, node, st):
             list(args[0][1]) if args[0][0] in ('array', 'vec') else None
         if xs is not None and all(ordinal(e) is not None and ordinal(e)[0] == ordinal(args[1])[0] for e in xs):
             return [Out('val', ('lit', any(ordinal(e) == ordinal(args[1]) for e in xs)), st)]
+    if name in ('starts_with', 'ends_with') and cal.startswith('core::slice::<impl [T]>::') and len(args) == 2 and seq_elems(args[0]) is not None and seq_elems(args[1]) is not None:
+        # slice.starts_with(needle) / ends_with(needle) with every element of both known integers: needle.len() <= len and the first /
+        # last needle.len() elements equal the needle's, element by element (true for the empty needle)
+        hay, ndl = seq_elems(args[0])[0], seq_elems(args[1])[0]
+        if all(x[0] == 'lit' and isinstance(x[1], int) and not isinstance(x[1], bool) for x in hay + ndl):
+            part = hay[:len(ndl)] if name == 'starts_with' else hay[len(hay) - len(ndl):] if len(ndl) <= len(hay) else None
+            return [Out('val', ('lit', len(ndl) <= len(hay) and part == ndl), st)]
     if cal == 'core::mem::size_of' and not args:
         # size_of::<T>() of a fixed-width integer type is its width in octets (usize / isize: 8 on the 64-bit target the facts are
         # extracted for - the same assumption as INT_RANGE); any other type stays an opaque call
